@@ -35,9 +35,9 @@ Definition issue_all (legacy : bool) (h : heap) (news : list (nat * rkind * opti
 
 Definition VACANT_RID : nat := 4000.
 
-Definition primary (a : oact) : option action :=
+Definition primary (auto_poll : bool) (a : oact) : option action :=
   match a with
-  | ORun => None
+  | ORun => if auto_poll then Some APoll else None      (* Core::process_event runs every ready task *)
   | OResolve k v => Some (AResolve k v)
   | OSer k b => Some (ASerResolve k b)
   | OSerVacant => Some (ASerResolve VACANT_RID None)
@@ -53,7 +53,7 @@ Definition follows_with_poll (a : oact) : bool :=
 (* one observed step on the model: (heap after, result code, events) *)
 Definition model_step (auto_poll legacy : bool) (h : heap) (st : ostep) : heap * Z * list (nat * N) :=
   let '(h1, code, evs) :=
-    match primary (s_act st) with
+    match primary auto_poll (s_act st) with
     | None => (h, 0%Z, [])
     | Some a =>
         let (h1, o) := step h a in
